@@ -358,6 +358,11 @@ func (db *MultiBucketBackend) BucketExists(name string) (exists bool, err error)
 }
 
 func (db *MultiBucketBackend) HeadObject(bucketName, objectName string) (*gofakes3.Object, error) {
+	if err := gofakes3.ValidateBucketName(bucketName); err != nil {
+		// see BucketExists: "." as the source bucket of a copy would make every
+		// other bucket readable as a key prefix
+		return nil, gofakes3.BucketNotFound(bucketName)
+	}
 	if !validObjectKey(objectName) {
 		return nil, gofakes3.KeyNotFound(objectName)
 	}
@@ -401,6 +406,9 @@ func (db *MultiBucketBackend) HeadObject(bucketName, objectName string) (*gofake
 }
 
 func (db *MultiBucketBackend) GetObject(bucketName, objectName string, rangeRequest *gofakes3.ObjectRangeRequest) (obj *gofakes3.Object, rerr error) {
+	if err := gofakes3.ValidateBucketName(bucketName); err != nil {
+		return nil, gofakes3.BucketNotFound(bucketName)
+	}
 	if !validObjectKey(objectName) {
 		return nil, gofakes3.KeyNotFound(objectName)
 	}
